@@ -286,10 +286,10 @@ EXTRA_TEXT = {
     "C06": "A third of the encoder cases carry a flush script (same actions at the same offsets in every run, only the slicing differs); two of the six variants run on a handle that was the same kind of encoder before (re-initialised without lzma_end).",
     "C07": "Lifecycles: early lzma_end, second life of the handle (re-init without lzma_end, other threads / threading limit) and output space that exactly fits and is never enlarged. 1/8 of the cases contain a Block that is well-formed but refused at decoder init (misaligned BCJ start offset); 2% are threshold cases: the smallest memlimit_threading that allows threaded mode is found by bisection on the hook counters and limit-1..limit+2 are run under the shim.",
     "C08": "Lifecycles: early end, re-init with the same / another thread count, and an allocation failure (usually inside a worker) that must surface as LZMA_MEM_ERROR without blocking or leaking; the progress rule is also checked for the second life. A third of the re-init lifecycles fail an allocation of the re-initialisation itself; a sixth of the cases use block sizes just below the Block Header field-width boundaries; two cases per run encode a 24 MiB incompressible Block behind delta,delta,lzma2 with SHA-256 so that the worker takes the uncompressed-chunk fallback, which rewrites the Block Header (floor: reached at least once).",
-    "C10": "For index operations 'unchanged' also means: same digest as an untouched twin after a fixed continuation (other Stream Flags, padding, three appends). One scenario decodes Index fields declaring about 2^60 Records (the impossible allocation must be requested and refused, or never made).",
+    "C10": "For index operations 'unchanged' also means: same digest as an untouched twin after a fixed continuation (other Stream Flags, padding, three appends). One scenario decodes Index fields declaring about 2^60 Records (the impossible allocation must be requested and refused, or never made). A fifth of the handle-reuse history steps are 1-3 lzma_index_decoder lives (whole or cut short, init under a failure plan half of the time).",
     "C12": "One more lzma_filters_update (whole chain or lc/lp/pb) is attempted at an arbitrary lzma_code call boundary under 1-3 byte output, also while a header is being copied out: accepted or refused, everything still has to decode. Chains that only the filter's own initialisation refuses are offered before the first input, mid-run and between Blocks after an accepted change.",
     "C13": "Decoded indexes join the operation history (a third), file-info results take further appends, files may contain Block-less Streams; xz --list --robot -vv figures are compared with an independent parser, including Stream Padding around the 8 KiB read window and Streams of thousands of Blocks.",
-    "C09": "5% of the library cases are block-by-block cache-eviction cases for the threaded decoder (Blocks with different dictionaries, threading limit = need of the most demanding Block); Streams of mixed files declare different dictionaries; threading limits just above the single-thread need are swept.",
+    "C09": "5% of the library cases are block-by-block cache-eviction cases for the threaded decoder (Blocks with different dictionaries, threading limit = need of the most demanding Block); Streams of mixed files declare different dictionaries; threading limits just above the single-thread need are swept. Half of the .lz files have two members whose dictionary grows from 4-16 KiB to the size under test (memory need per member).",
     "C11": "One case per run drives flush/finish sequences with more than 4 GiB of pending input (continuation accepted, change of avail_in by exactly 2^32 noticed).",
     "C17": "One unfaulted decompression per run has a zero run longer than 4 GiB (target verified by size, head, tail and reported extents before the source may go).",
     "C20": "Half of the stdin cases are fed by a writer that pauses (xz sees EAGAIN on its non-blocking stdin).",
